@@ -143,8 +143,21 @@ func c05Build(p *chk.Prog, r *chk.Report) {
 	// peers
 	peers := g.Find(func(n ast.Node) bool {
 		as, ok := n.(*ast.AssignStmt)
-		return ok && len(as.Lhs) == 1 && len(as.Rhs) == 1 && f.MatchWith("AD.Peers", as.Lhs[0], chk.H("AD", func(e ast.Expr) bool { return f.SameExpr(e, adVar) })) != nil &&
-			f.MatchWith("append(AD.Peers, A.Peers...)", as.Rhs[0], chk.H("A", adc)) != nil
+		if !ok || len(as.Lhs) != 1 || len(as.Rhs) != 1 || f.MatchWith("AD.Peers", as.Lhs[0], chk.H("AD", func(e ast.Expr) bool { return f.SameExpr(e, adVar) })) == nil {
+			return false
+		}
+		// all of adCfg.Peers appended to the advertisement's own (still empty) list or to a fresh one, or a clone
+		base := func(e ast.Expr) bool {
+			e = ast.Unparen(e)
+			return f.IsNilLit(e) || f.MatchWith("AD.Peers", e, chk.H("AD", func(x ast.Expr) bool { return f.SameExpr(x, adVar) })) != nil ||
+				f.MatchWith("make([]string, 0, ETC)", e) != nil || f.MatchWith("make([]string, 0)", e) != nil || f.MatchWith("[]string{}", e) != nil
+		}
+		if c, isCall := ast.Unparen(as.Rhs[0]).(*ast.CallExpr); isCall && c.Ellipsis.IsValid() && len(c.Args) == 2 {
+			if id, isId := c.Fun.(*ast.Ident); isId && id.Name == "append" && base(c.Args[0]) && f.MatchWith("A.Peers", c.Args[1], chk.H("A", adc)) != nil {
+				return true
+			}
+		}
+		return f.MatchWith("slices.Clone(A.Peers)", as.Rhs[0], chk.H("A", adc)) != nil
 	})
 	isVariadicCopy := len(peers) == 1
 	if isVariadicCopy {
@@ -262,31 +275,51 @@ func c05Publish(p *chk.Prog, r *chk.Report) {
 	mp := need(y, p, "internal/bgp", "Advertisement", "MatchesPeer")
 	if mp != nil {
 		g := mp.Graph()
-		nt := 0
+		recv := chk.H("RECV", isRecv(mp))
+		// an element of a.Peers: the value of a range over it, or a.Peers[k]
+		listed := func(e ast.Expr) bool {
+			for _, rs := range mp.RangeLoops(func(x ast.Expr) bool { return mp.MatchWith("RECV.Peers", x, recv) != nil }) {
+				if rangeVal(mp, rs)(e) {
+					return true
+				}
+			}
+			if ix, ok := ast.Unparen(mp.Resolve(e)).(*ast.IndexExpr); ok {
+				return mp.MatchWith("RECV.Peers", ix.X, recv) != nil
+			}
+			return false
+		}
+		just := chk.GOr(g.GPat(true, "len(RECV.Peers) == 0", recv), g.GPat(true, "P == N", chk.H("P", listed), chk.H("N", isParamIdx(mp, 0))))
+		nret := 0
 		for _, rt := range g.Returns() {
 			rr := retResults(rt)
 			if len(rr) != 1 {
 				continue
 			}
+			nret++
 			switch {
 			case mp.IsConstBool(rr[0], true):
-				nt++
-				okk := g.Dominated(rt, g.GPat(true, "len(RECV.Peers) == 0", chk.H("RECV", isRecv(mp))))
-				if rs, isLoop := mp.LoopOf(rt.Node).(*ast.RangeStmt); isLoop && mp.MatchWith("RECV.Peers", rs.X, chk.H("RECV", isRecv(mp))) != nil {
-					okk = okk || g.Dominated(rt, g.GPat(true, "P == N", chk.H("P", rangeVal(mp, rs)), chk.H("N", isParamIdx(mp, 0))))
-				}
-				y.Check("MatchesPeer:true#"+itoa(nt), rt.Pos(), okk, "", "MatchesPeer can be true for a peer the advertisement does not name")
+				y.Check("MatchesPeer:true@"+itoa(nret), rt.Pos(), g.Dominated(rt, just), "", "MatchesPeer can be true for a peer the advertisement does not name")
 			case mp.IsConstBool(rr[0], false):
 				okk := false
-				for _, rs := range mp.RangeLoops(func(e ast.Expr) bool { return mp.MatchWith("RECV.Peers", e, chk.H("RECV", isRecv(mp))) != nil }) {
+				for _, rs := range mp.RangeLoops(func(e ast.Expr) bool { return mp.MatchWith("RECV.Peers", e, recv) != nil }) {
 					okk = g.AfterLoop(rt, rs) && !loopHasBreak(g, rs)
 				}
-				y.Check("MatchesPeer:false-after-scan", rt.Pos(), okk, "", "MatchesPeer can be false without scanning the whole peer list")
+				y.Check("MatchesPeer:false-after-scan", rt.Pos(), okk && g.Dominated(rt, g.GPat(false, "len(RECV.Peers) == 0", recv)), "", "MatchesPeer can be false for an empty peer list or without scanning the whole list")
 			default:
-				y.Fail("MatchesPeer:return-shape", rt.Pos(), "a return that is not a boolean constant")
+				// a result variable / expression: true only with the justification. (That it is false only after the
+				// whole list was compared is decided for the early-return form only.)
+				okk := g.DominatedAssuming(rt, rr[0], true, just)
+				if id, isId := ast.Unparen(rr[0]).(*ast.Ident); isId && !okk {
+					if v, isVar := mp.ObjOf(id).(*types.Var); isVar {
+						okk, _ = flagTrueOnlyIf(mp, g, v, just)
+					}
+				}
+				y.Check("MatchesPeer:result-true-only-when-listed", rt.Pos(), okk, "", "MatchesPeer can be true for a peer the advertisement does not name")
 			}
 		}
-		y.Check("MatchesPeer:shape", mp.Pos(), nt == 2, "", "expected the empty-list arm and the listed-name arm")
+		y.Check("MatchesPeer:compares-the-list", mp.Pos(), g.EdgeImpliesAny(g.GPat(true, "P == N", chk.H("P", listed), chk.H("N", isParamIdx(mp, 0)))) ||
+			len(g.FindPat("P == N", chk.H("P", listed), chk.H("N", isParamIdx(mp, 0)))) > 0, "", "MatchesPeer never compares a listed peer with the name")
+		y.Check("MatchesPeer:empty-list-means-all", mp.Pos(), len(g.FindPat("len(RECV.Peers) == 0", recv)) > 0, "", "MatchesPeer has no rule for the empty peer list")
 	}
 }
 
@@ -412,25 +445,47 @@ func c05Select(p *chk.Prog, r *chk.Report) {
 		return
 	}
 	peer := rangeVal(f, loop)
-	var should types.Object
-	for _, s := range g.Find(f.IsAssignPat("S", "false")) {
-		if chk.InBody(loop, s.Node) {
-			should = f.ObjOf(s.Node.(*ast.AssignStmt).Lhs[0])
+	// the peer is selected: no node selectors, or one of its selectors matches the node's labels
+	selector := func(e ast.Expr) bool {
+		for _, rs := range f.RangeLoops(func(x ast.Expr) bool { return f.MatchWith("P.cfg.NodeSelectors", x, chk.H("P", peer)) != nil }) {
+			if rangeVal(f, rs)(e) {
+				return true
+			}
 		}
+		return false
 	}
-	x.Check("syncPeers:shouldRun-reset-per-peer", loop.Pos(), should != nil, "", "no per-peer shouldRun := false")
+	selected := chk.GOr(g.GPat(true, "len(P.cfg.NodeSelectors) == 0", chk.H("P", peer)), g.GPat(true, "NS.Matches(RECV.nodeLabels)", chk.H("NS", selector)))
+	// the per-peer boolean that is true only for a selected peer
+	var should types.Object
+	seenV := map[types.Object]bool{}
+	ast.Inspect(loop.Body, func(n ast.Node) bool {
+		id, ok := n.(*ast.Ident)
+		if !ok || should != nil {
+			return true
+		}
+		v, ok := f.Info().Defs[id].(*types.Var)
+		if !ok || seenV[v] {
+			return true
+		}
+		seenV[v] = true
+		if b, isB := v.Type().Underlying().(*types.Basic); !isB || b.Info()&types.IsBoolean == 0 {
+			return true
+		}
+		if j, _ := flagTrueOnlyIf(f, g, v, selected); j {
+			should = v
+		}
+		return true
+	})
+	news := g.FindPat("RECV.sessionManager.NewSession(ETC)")
+	x.Check("syncPeers:NewSession-call", loop.Pos(), len(news) == 1, "", "expected one NewSession call")
+	for _, c := range news {
+		okSel := g.Dominated(c, selected) || (should != nil && g.Dominated(c, chk.GBool(true, f.IsObj(should))))
+		x.Check("syncPeers:create-only-when-selected", c.Pos(), okSel && g.Dominated(c, g.GPat(true, "P.session == nil", chk.H("P", peer))), "",
+			"a session can be created for a peer that does not select this node (no empty selector list and no selector matching the node's labels on some path), or for a peer that already has one")
+	}
+	x.Check("syncPeers:selection-is-per-peer", loop.Pos(), should != nil || len(news) == 0, "", "no per-peer selection result")
 	if should == nil {
 		return
-	}
-	for i, s := range g.Find(f.IsAssignPat("S", "true", chk.H("S", f.IsObj(should)))) {
-		ok := g.Dominated(s, g.GPat(true, "len(P.cfg.NodeSelectors) == 0", chk.H("P", peer)))
-		if rs, isLoop := f.LoopOf(s.Node).(*ast.RangeStmt); isLoop && f.MatchWith("P.cfg.NodeSelectors", rs.X, chk.H("P", peer)) != nil {
-			ok = ok || g.Dominated(s, g.GPat(true, "NS.Matches(RECV.nodeLabels)", chk.H("NS", rangeVal(f, rs))))
-		}
-		x.Check("syncPeers:shouldRun-true#"+itoa(i+1), s.Pos(), ok, "", "a peer can be selected for this node without an empty selector list or a selector matching the node's labels")
-	}
-	for _, c := range g.FindPat("RECV.sessionManager.NewSession(ETC)") {
-		x.Check("syncPeers:create-only-when-selected", c.Pos(), g.Dominated(c, chk.GBool(true, f.IsObj(should))) && g.Dominated(c, g.GPat(true, "P.session == nil", chk.H("P", peer))), "", "a session can be created for a peer that does not select this node (or that already has one)")
 	}
 	es := g.EdgesImplying(g.GPat(true, "P.session != nil && !S", chk.H("P", peer), chk.H("S", f.IsObj(should))))
 	x.Check("syncPeers:close-branch", loop.Pos(), len(es) == 1, "", "no branch for a running session whose peer stopped selecting this node")
